@@ -25,6 +25,17 @@ func toGo(v value, t reflect.Type) (reflect.Value, bool) {
 		if s, ok := v.(string); ok {
 			return reflect.ValueOf(s).Convert(t), true
 		}
+		if ss, ok := v.(symstr); ok {
+			buf := make([]byte, len(ss))
+			for k, b := range ss {
+				c, ok := b.(byte)
+				if !ok {
+					return reflect.Value{}, false
+				}
+				buf[k] = c
+			}
+			return reflect.ValueOf(string(buf)).Convert(t), true
+		}
 	case reflect.Int:
 		if x, ok := v.(int); ok {
 			return reflect.ValueOf(x).Convert(t), true
